@@ -1244,3 +1244,81 @@ func TestObjCatalogue3(t *testing.T) { runCatalogue(t, catalogue3()) }
 
 // TestObjCatalogue2 probes the boxes of the 2D parts of the object library.
 func TestObjCatalogue2(t *testing.T) { runCatalogue(t, catalogue2()) }
+
+// ---------------------------------------------------------------------------
+// regression cases (plain): minimised failures found by the catalogue tests
+
+func regularTetra() []*sdf.Triangle3 {
+	vs := []v3.Vec{{X: 1, Y: 1, Z: 1}, {X: 1, Y: -1, Z: -1}, {X: -1, Y: 1, Z: -1}, {X: -1, Y: -1, Z: 1}}
+	var mesh []*sdf.Triangle3
+	for _, f := range [][3]int{{0, 2, 1}, {0, 1, 3}, {0, 3, 2}, {1, 2, 3}} {
+		tri := sdf.Triangle3{vs[f[0]], vs[f[1]], vs[f[2]]}
+		if tri.Normal().Dot(tri[0]) < 0 {
+			t := tri[1]
+			tri[1], tri[2] = tri[2], t
+		}
+		mesh = append(mesh, &tri)
+	}
+	return mesh
+}
+
+func TestRegressObj(t *testing.T) {
+	rec := ev.Get()
+	leak3 := func(t *testing.T, name, key string, s sdf.SDF3, p v3.Vec) {
+		bb := s.BoundingBox()
+		rec.Case(true, ev.Key("regress-obj", name, p), "regress-obj")
+		if out := boxprobe.Outside3(bb, p); out > boxprobe.Tau3(bb) && s.Evaluate(p) < -boxprobe.Tau3(bb) {
+			rec.FailCase(t, "TestRegressObj", key, map[string]any{"shape": name, "p": p}, "%s: value %v at %v, %v outside box %v", name, s.Evaluate(p), p, out, bb)
+		}
+	}
+	// ImportTriMesh of a closed convex mesh (a regular tetrahedron, every triangle
+	// considered): beside the vertex (1,-1,-1) the triangle facing away from the
+	// point wins the distance tie-break (it weighs |cos| of the angle to the
+	// normal), so the value is the negative plane distance of that triangle.
+	t.Run("ImportTriMesh", func(t *testing.T) {
+		s := obj.ImportTriMesh(regularTetra(), 20, 3, 5)
+		leak3(t, "ImportTriMesh(regular tetrahedron (+-1,+-1,+-1), 20, 3, 5)", "C01:obj.ImportTriMesh", s, v3.Vec{X: 0.92, Y: -3, Z: -0.9})
+	})
+	// DirectedArrow3D pointing almost exactly along -z: sdf.RotateToVector divides by
+	// 1 + a.b = 0 (the test for opposite vectors only accepts 1e-12) and the
+	// transform, hence the box, is NaN.
+	t.Run("DirectedArrow3D", func(t *testing.T) {
+		k := &obj.ArrowParms{Axis: [2]float64{0, 1}, Head: [2]float64{5, 2}, Tail: [2]float64{5, 2}, Style: "c."}
+		head, tail := v3.Vec{X: 6e-7, Y: 6e-7, Z: -80}, v3.Vec{}
+		s, err := obj.DirectedArrow3D(k, head, tail)
+		if err != nil {
+			t.Fatal(err)
+		}
+		bb := s.BoundingBox()
+		rec.Case(true, "regress-obj-directedarrow", "regress-obj")
+		if !(bb.Min.X <= bb.Max.X && bb.Min.Y <= bb.Max.Y && bb.Min.Z <= bb.Max.Z) || math.IsInf(bb.Size().Length(), 0) {
+			rec.FailCase(t, "TestRegressObj", "C01:obj.DirectedArrow3D:box-not-finite", map[string]any{"head": head, "tail": tail}, "DirectedArrow3D(%+v, head %v, tail %v): box %v", *k, head, tail, bb)
+		}
+	})
+	// known finding (blend): DrainCover with a cross bar web thicker than the cover
+	// plate; the PolyMin(WallThickness) fillet of body and web bulges below z = 0.
+	t.Run("DrainCover", func(t *testing.T) {
+		k := &obj.DrainCoverParms{WallDiameter: 150, WallHeight: 20, WallThickness: 6, WallDraft: 0, OuterWidth: 10, InnerWidth: 8, CoverThickness: 4, GrateNumber: 9, GrateWidth: 1, GrateDraft: 0, CrossBarWidth: 1.8, CrossBarWeb: true}
+		s, err := obj.DrainCover(k)
+		if err != nil {
+			t.Fatal(err)
+		}
+		leak3(t, fmt.Sprintf("DrainCover(%+v)", *k), "C01:blend-fillet-outside-box", s, v3.Vec{X: 0, Y: 0.5, Z: -0.05})
+	})
+	// sdf.Polygon2D sign defect at query points level with a vertex (tracked under
+	// C04), reached through obj.Angle2D: the point is 2 left of the profile, level
+	// with its top edge.
+	t.Run("Angle2D", func(t *testing.T) {
+		const l = 31.999018336304726 // whether a vertex level is hit depends on the rounding of the quadtree cells
+		k := &obj.AngleParms{X: obj.AngleLeg{Length: l, Thickness: 6.35}, Y: obj.AngleLeg{Length: l, Thickness: 6.35}}
+		s, err := obj.Angle2D(k)
+		if err != nil {
+			t.Fatal(err)
+		}
+		p, bb := v2.Vec{X: -2, Y: l}, s.BoundingBox()
+		rec.Case(true, "regress-obj-angle2d", "regress-obj")
+		if out := boxprobe.Outside2(bb, p); out > boxprobe.Tau2(bb) && s.Evaluate(p) < -boxprobe.Tau2(bb) {
+			rec.FailCase(t, "TestRegressObj", "C01:obj.Angle2D:polygon-vertex-level-sign", map[string]any{"p": p}, "Angle2D(%+v): value %v at %v, %v outside box %v", *k, s.Evaluate(p), p, out, bb)
+		}
+	})
+}
